@@ -196,3 +196,64 @@ def kf_scenarios(T):
         # disconnect from inside msg_process with a second request queued (the application holds a reference)
         "KF-C04-3": S + ["Body created 1 0 Ref self", "Body msg 1 1 Disconnect self"] + con + ["CSend 0 2", "Step", "Unref 1"],
     }
+
+
+KIND = {1: "accept", 2: "created", 3: "msg", 4: "closed", 5: "destroyed"}
+
+
+def from_model(h, T):
+    """a behaviour of spec/IpcLifeGen.tla (choices of the application and the environment) -> program for h_ipc_life:
+    callback bodies keyed by kind, connection and invocation number; Connect/Req/Job/Destroy -> client and loop steps"""
+    top, bodies, acc, closed, cnt, stack = [], {}, {}, {}, {}, []
+    nconn = 0
+    sends = 0
+    for e in h:
+        tag = e[0]
+        if tag == "Cb":
+            kind, c, r = e[1], e[2], e[3]
+            cnt[(kind, c)] = cnt.get((kind, c), 0) + 1
+            stack.append((kind, c, cnt[(kind, c)]))
+            if kind == 1 and r != 0:
+                acc[c] = -13
+            if kind == 4:
+                closed.setdefault(c, []).append(r)
+            continue
+        if tag == "Ret":
+            stack.pop()
+            continue
+        if tag == "Connect":
+            k = nconn
+            nconn += 1
+            txt = ["CConnect %d" % k, "Step", "Step", "CContinue %d" % k]
+        elif tag == "Req":
+            k = e[1] - 1
+            txt = ["CSend %d %d" % (k, e[2]), "Step"] if e[2] > 0 else ["CDisc %d" % k, "Step"]
+        elif tag == "Job":
+            txt = ["Jobs"]
+        elif tag == "Destroy":
+            txt = ["SvcDestroy"]
+        elif tag == "Disc":
+            txt = ["Disconnect %d" % e[1]]
+        elif tag in ("Ref", "Unref"):
+            txt = ["%s %d" % (tag, e[1])]
+        elif tag == "Send":
+            sends += 1
+            txt = ["%s %d" % ("Event" if sends % 2 else "Resp", e[1])]
+        elif tag == "Rate":
+            sends += 1
+            txt = ["RateLimit %d" % (3 if sends % 2 else 0)]
+        else:
+            txt = [tag]         # IterFirst, IterNext
+        if stack:
+            bodies.setdefault(stack[-1], []).extend(txt)
+        else:
+            top += txt
+    L = ["Svc %d" % T]
+    for c, v in sorted(acc.items()):
+        L.append("AcceptRet %d %d" % (c, v))
+    for c, v in sorted(closed.items()):
+        if any(v):
+            L.append("ClosedRet %d %s" % (c, " ".join(str(x) for x in v)))
+    for (kind, c, nth), ops in sorted(bodies.items()):
+        L.append("Body %s %d %d %s" % (KIND[kind], c, nth if kind in (3, 4) else 0, " ; ".join(ops)))
+    return L + top
